@@ -926,6 +926,29 @@ func (ba *boundAnalysis) analyze(fn *ssa.Function, report bool) bool {
 		}
 	}
 
+	// Conditional facts (correlated branches). A value bounded on one side only of a test `v == K` is lost at the merge;
+	// if a later test establishes `v == K2` with a constant K2 != K (an arm of a switch over the same v), the path came
+	// through the `v != K` side and the fact holds again. cfAt[b][key] = values bounded at b whenever key holds, where key
+	// names (v, K, equal/unequal). Facts are only ever added in the situation described, never removed from G.
+	type ckey struct {
+		v  ssa.Value
+		k  string
+		eq bool
+	}
+	eqTest := func(cond ssa.Value) (ssa.Value, string, bool, bool) {
+		bo, ok := cond.(*ssa.BinOp)
+		if !ok || (bo.Op != token.EQL && bo.Op != token.NEQ) {
+			return nil, "", false, false
+		}
+		if c, ok := bo.Y.(*ssa.Const); ok && c.Value != nil {
+			return bo.X, c.Value.ExactString(), bo.Op == token.EQL, true
+		}
+		if c, ok := bo.X.(*ssa.Const); ok && c.Value != nil {
+			return bo.Y, c.Value.ExactString(), bo.Op == token.EQL, true
+		}
+		return nil, "", false, false
+	}
+	cfAt := map[*ssa.BasicBlock]map[ckey]valSet{}
 	for iter := 0; iter < 50; iter++ {
 		changed := false
 		for _, b := range order {
@@ -976,13 +999,119 @@ func (ba *boundAnalysis) analyze(fn *ssa.Function, report bool) bool {
 					delete(G, phi)
 				}
 			}
-			if visited[b] && equalSets(in[b], G) {
+			// conditional facts at b: inherited, plus what a two-way merge under an equality test loses
+			cf := map[ckey]valSet{}
+			if len(b.Preds) == 1 {
+				for k, v := range cfAt[b.Preds[0]] {
+					cf[k] = v
+				}
+			} else if len(b.Preds) > 1 {
+				first := true
+				for _, pr := range b.Preds {
+					pc, seen := cfAt[pr]
+					if !seen {
+						continue
+					}
+					if first {
+						for k, v := range pc {
+							cf[k] = v
+						}
+						first = false
+						continue
+					}
+					for k, v := range cf {
+						if pv, ok := pc[k]; ok {
+							cf[k] = intersect(v, pv)
+						} else {
+							delete(cf, k)
+						}
+					}
+				}
+			}
+			if d := b.Idom(); d != nil && len(b.Preds) >= 2 && len(d.Succs) == 2 {
+				if iff, ok := d.Instrs[len(d.Instrs)-1].(*ssa.If); ok {
+					if v, k, isEq, ok := eqTest(iff.Cond); ok {
+						// every predecessor lies behind exactly one side of the test; per side, what all its predecessors agree on
+						sideSet := map[int]valSet{}
+						okSides := true
+						for _, pr := range b.Preds {
+							eo, have := edgeOut[[2]*ssa.BasicBlock{pr, b}]
+							if !have {
+								okSides = false
+								break
+							}
+							side := -1
+							for si, su := range d.Succs {
+								if (pr == d && su == b) || (pr != d && len(su.Preds) == 1 && (su == pr || su.Dominates(pr))) {
+									if side >= 0 {
+										side = -2
+									} else {
+										side = si
+									}
+								}
+							}
+							if side < 0 {
+								okSides = false
+								break
+							}
+							if cur, seen := sideSet[side]; seen {
+								sideSet[side] = intersect(cur, eo)
+							} else {
+								sideSet[side] = eo.clone()
+							}
+						}
+						if okSides {
+							for side, set := range sideSet {
+								extra := valSet{}
+								for x := range set {
+									if !G[x] {
+										extra[x] = true
+									}
+								}
+								if len(extra) > 0 {
+									cf[ckey{v, k, (side == 0) == isEq}] = extra
+								}
+							}
+						}
+					}
+				}
+			}
+			cfChanged := len(cf) != len(cfAt[b])
+			for k, v := range cf {
+				if !equalSets(v, cfAt[b][k]) {
+					cfChanged = true
+				}
+			}
+			cfAt[b] = cf
+			if visited[b] && equalSets(in[b], G) && !cfChanged {
 				continue
 			}
 			visited[b] = true
 			in[b] = G.clone()
 			changed = true
 			transfer(b, G, false)
+			// promotion: on the edge where `v == K2` is known, what holds under `v == K2` or under `v != K` (K != K2) holds
+			if len(b.Succs) == 2 && len(cf) > 0 {
+				if iff, ok := b.Instrs[len(b.Instrs)-1].(*ssa.If); ok {
+					if v, k2, isEq, ok := eqTest(iff.Cond); ok {
+						eqSucc := b.Succs[1]
+						if isEq {
+							eqSucc = b.Succs[0]
+						}
+						e := [2]*ssa.BasicBlock{b, eqSucc}
+						for key, set := range cf {
+							if key.v != v {
+								continue
+							}
+							if (key.eq && key.k == k2) || (!key.eq && key.k != k2) {
+								for x := range set {
+									edgeOut[e][x] = true
+								}
+							}
+						}
+					}
+				}
+			}
 		}
 		if !changed {
 			break
